@@ -411,6 +411,19 @@ func runC14(c *engine.Ctx) {
 						c.Fail("C14.differ", name, "two inputs that differ in signed content (%s) have the SAME canonical payload\npayload: %s\noriginal step: %s\n  pipeline env=%v repo=%q alg=%s\nvariant step:  %s\n  pipeline env=%v repo=%q alg=%s",
 							name, truncate(string(base), 600), truncate(string(j.step.ToJSON(nil)), 700), penv, j.repoURL, kp.kind, truncate(string(tj.step.ToJSON(nil)), 700), tj.env, tj.repoURL, kp2.kind)
 					}
+					// the verifier's side of the same pair: whatever payload Verify rebuilds for the changed
+					// presentation (if it gets that far) is the byte string it checks the signature against - it
+					// must not be the one that was signed
+					if cs2.Signature != nil && kp2 == kp {
+						vv := agentVerifyStep(c, "C14", cs2, tj.env, tj.repoURL, kp.pub, context.Background(), nil)
+						for _, vp := range vv.payloads {
+							if bytes.Equal(vp, base) {
+								c.Fail("C14.differ", name+" (verifier's payload)", "the verifier rebuilds the ORIGINAL payload for a presentation that differs in signed content (%s)\npayload: %s\noriginal step: %s\n  pipeline env=%v repo=%q\npresented step: %s\n  pipeline env=%v repo=%q",
+									name, truncate(string(base), 600), truncate(string(j.step.ToJSON(nil)), 700), penv, j.repoURL, truncate(string(tj.step.ToJSON(nil)), 700), tj.env, tj.repoURL)
+							}
+						}
+						c.ProbeN("differ_pairs.verifier-side", len(vv.payloads))
+					}
 					judged["differ:"+name] = true
 					fpKinds = append(fpKinds, name)
 					c.Probe("differ_pairs")
